@@ -1,5 +1,6 @@
 import RossModel.Lemmas.SourceTie
 import RossModel.Lemmas.Event
+import RossModel.Lemmas.SourceDecoders
 /-!
 # C12 — A packet is never ambiguous between event kinds
 
@@ -34,5 +35,21 @@ theorem C12_src_codes : (SrcTie.codesOk && SrcTie.constUseOk) = true := by decid
 example : decode .data (encode ⟨0, 0, 0⟩ (.ack 1 2)) = .err .wrongSize ∧
     decode .ack (encode ⟨0, 0, 0⟩ (.data 1 2 0 [])) = .err .wrongSize ∧
     decode .buttonReleased (encode ⟨0, 0, 0⟩ (.buttonPressed 1 2 3)) = .err .wrongEventType := by decide
+
+/-- **C12 about the decoders as they read now** (`Src.decodeK`: `try_from_packet` translated from `src/event/*.rs` on
+every run, fourteen kinds; the data and message decoders are the model's): no packet is accepted by the decoders of two
+kinds, and the encoding of an event of one kind is rejected by every other kind's translated decoder -/
+theorem C12_src_decode_unique (k₁ k₂ : Kind) (p : Packet) (e₁ e₂ : Event)
+    (h₁ : Src.decodeK k₁ p = .ok e₁) (h₂ : Src.decodeK k₂ p = .ok e₂) : k₁ = k₂ :=
+  Ross.decode_unique k₁ k₂ p e₁ e₂ (((Ross.src_decodeK_agrees k₁ p).1 e₁).1 h₁) (((Ross.src_decodeK_agrees k₂ p).1 e₂).1 h₂)
+
+theorem C12_src_cross_reject (pad : Pad) (e : Event) (k : Kind) (hk : k ≠ e.kind) (hwf : e.WF) :
+    ∃ r, Src.decodeK k (encode pad e) = .err r := by
+  obtain ⟨r, hr⟩ := Ross.cross_reject pad e k hk hwf
+  have ha := Ross.src_decodeK_agrees k (encode pad e)
+  cases hs : Src.decodeK k (encode pad e) with
+  | ok v => have := (ha.1 v).1 hs; rw [hr] at this; cases this
+  | err r' => exact ⟨r', rfl⟩
+  | panic => exact absurd hs ha.2
 
 end Ross.Props
